@@ -1,0 +1,37 @@
+//go:build verif
+
+package reassembly
+
+// Read-only accessors for the verification harness (build tag verif only).
+
+// VerifPagesUsed reports the number of pages the assembler's page cache has handed out.
+func VerifPagesUsed(a *Assembler) int { return a.pc.used }
+
+// VerifPoolStats reports the number of live connections and the free-list length of a pool.
+func VerifPoolStats(p *StreamPool) (conns, free int) {
+	p.mu.RLock()
+	defer p.mu.RUnlock()
+	return len(p.conns), len(p.free)
+}
+
+// VerifConnPages walks every live connection and returns, per half connection, the pages actually
+// linked (queued list and saved list) and the value of its pages counter.
+func VerifConnPages(p *StreamPool) (queued, saved, counted []int) {
+	for _, c := range p.connections() {
+		c.mu.Lock()
+		for _, h := range []*halfconnection{&c.c2s, &c.s2c} {
+			q, s := 0, 0
+			for pg := h.first; pg != nil; pg = pg.next {
+				q++
+			}
+			for pg := h.saved; pg != nil; pg = pg.next {
+				s++
+			}
+			queued = append(queued, q)
+			saved = append(saved, s)
+			counted = append(counted, h.pages)
+		}
+		c.mu.Unlock()
+	}
+	return
+}
